@@ -452,12 +452,12 @@ Proof.
     destruct (e_paused e) eqn:Epa; cbn [negb]; [|eapply inv_mono; eauto].
     pose proof (inv_entry _ _ Hi _ _ Eg) as Hwf.
     assert (Hnh : e_inheap e = false).
-    { destruct (e_inheap e) eqn:Eh; [|reflexivity]. destruct Hwf as [_ [_ [_ [_ Hh]]]]. destruct (Hh eq_refl). congruence. }
+    { destruct (e_inheap e) eqn:Eh; [|reflexivity]. destruct Hwf as [_ [_ [_ [_ Hh]]]]. first [destruct (Hh Eh) as [H1 _]|destruct (Hh eq_refl) as [H1 _]]; congruence. }
     destruct Hwf as [Hso [Hto [Hmx [Hpe Hh]]]].
     destruct (is_time (e_strat (with_paused false e))) eqn:Etime; cbn [fst].
     + apply (inv_set_entry clock now); auto.
       assert (Hnp : e_pending e = false).
-      { destruct (e_pending e) eqn:E; [|reflexivity]. destruct (Hpe eq_refl) as [H1 _]. cbn in Etime. destruct (e_strat e); simpl in *; congruence. }
+      { destruct (e_pending e) eqn:E; [|reflexivity]. first [destruct (Hpe E) as [H1 _]|destruct (Hpe eq_refl) as [H1 _]]. cbn in Etime. destruct (e_strat e); simpl in *; congruence. }
       eapply refresh_wf; eauto; try apply Hi.
     + destruct (e_pending (with_paused false e) && negb (e_enq (with_paused false e))) eqn:Epq; cbn [fst].
       * apply (parts_same_inv clock now); auto; [apply nodup_aset; apply Hi|].
@@ -467,7 +467,7 @@ Proof.
         { rewrite aget_aset_other in Hget by assumption. apply Hi. assumption. }
       * apply (inv_set_entry clock now); auto.
         unfold wf_entry. cbn in *. rewrite Hnh. repeat split; auto; try discriminate; apply Hpe; assumption.
-  - (* OTouch *) cbn in Hv. cbn [step fst]. apply do_touch_inv; assumption.
+  - (* OTouch *) cbn in Hv. cbn [step fst]. apply (do_touch_inv clock); assumption.
   - (* OMsgProcessed *)
     cbn [step]. destruct (aget id (m_entries m)) as [e|] eqn:Eg; [|exact Hi].
     destruct (is_count (e_strat e)) eqn:Ecnt; cbn [negb]; [|exact Hi].
@@ -475,7 +475,7 @@ Proof.
     apply Z.ltb_ge in Elt.
     pose proof (inv_entry _ _ Hi _ _ Eg) as [Hso [Hto [Hmx [Hpe Hh]]]].
     assert (Hnh : e_inheap e = false).
-    { destruct (e_inheap e) eqn:Eh; [|reflexivity]. destruct (Hh eq_refl) as [_ [H2 _]]. destruct (e_strat e); simpl in *; congruence. }
+    { destruct (e_inheap e) eqn:Eh; [|reflexivity]. first [destruct (Hh Eh) as [_ [H2 _]]|destruct (Hh eq_refl) as [_ [H2 _]]]; destruct (e_strat e); simpl in *; congruence. }
     destruct (e_paused (with_pending true e) || e_enq (with_pending true e)); cbn [fst].
     + apply (inv_set_entry clock clock); auto; try lia.
       unfold wf_entry. cbn. rewrite Hnh. repeat split; auto; discriminate.
@@ -508,7 +508,7 @@ Proof.
     pose proof (inv_entry _ _ Hi _ _ Eg) as Hwf.
     pose proof (Hguard e eq_refl Eobj) as Etime.
     assert (Hnp : e_pending e = false).
-    { destruct (e_pending e) eqn:E; [|reflexivity]. destruct Hwf as [_ [_ [_ [Hpe _]]]]. destruct (Hpe eq_refl) as [H1 _].
+    { destruct (e_pending e) eqn:E; [|reflexivity]. destruct Hwf as [_ [_ [_ [Hpe _]]]]. first [destruct (Hpe E) as [H1 _]|destruct (Hpe eq_refl) as [H1 _]].
       destruct (e_strat e); simpl in *; congruence. }
     destruct Hwf as [Hso [Hto [Hmx _]]].
     apply (inv_set_entry clock now); auto. eapply refresh_wf; eauto. apply Hi.
@@ -541,3 +541,201 @@ Qed.
 
 Lemma reach_inv c m : reach c m -> inv c m.
 Proof. induction 1; [apply inv_init|apply step_inv; assumption]. Qed.
+
+(* ------------------------------------------------------------------ time-based: no early passivation *)
+
+(* trigger decides to passivate (id, obj) at clock reading [now]: the entry is the current,
+   un-paused, time-based entry of id, and the latest activity stamp of the actor is older than
+   timeout - passivationTouchInterval. *)
+Lemma trig_decide_bound c m id obj now :
+  reach c m ->
+  snd (step m (OTrigBegin id obj now)) = RDecide (Some (id, obj)) ->
+  exists e t, aget id (m_entries m) = Some e /\ e_obj e = obj /\ e_strat e = STime t /\
+              e_paused e = false /\ e_deadline e <= now /\
+              now - p_latest (get_part m id) > t - touch_interval.
+Proof.
+  intros Hr Hd. apply reach_inv in Hr. cbn [step] in Hd.
+  destruct (heap_head (m_entries m)) as [[id' e]|] eqn:Eh; [|discriminate].
+  destruct (Nat.eqb id' id && Nat.eqb (e_obj e) obj && negb (now <? e_deadline e)) eqn:Ec; [|discriminate].
+  apply andb_true_iff in Ec. destruct Ec as [Ec Edl]. apply andb_true_iff in Ec. destruct Ec as [Eid Eobj].
+  apply Nat.eqb_eq in Eid, Eobj. subst id'. apply negb_true_iff, Z.ltb_ge in Edl.
+  destruct (heap_head_in _ _ _ Eh) as [Hin Hheap].
+  pose proof (in_aget _ _ _ (inv_keys _ _ Hr) Hin) as Eg.
+  pose proof (inv_entry _ _ Hr _ _ Eg) as [Hso [Hto [Hmx [Hpe Hh]]]].
+  destruct (Hh Hheap) as [Hpa [Htime [H1 H2]]].
+  destruct (e_strat e) as [t| |] eqn:Es; simpl in Htime; try discriminate.
+  exists e, t. repeat split; auto. rewrite (Hto eq_refl) in H2. simpl in H2. lia.
+Qed.
+
+(* with a clock reading per message the stamp of a message is the time it was handled *)
+Definition per_message_op (o : op) : Prop :=
+  match o with OMark _ a now => a = now | _ => True end.
+
+Inductive reach_pm : Z -> mstate -> Prop :=
+| reach_pm_init : reach_pm 0 m0
+| reach_pm_step c m o : reach_pm c m -> valid_op c m o -> per_message_op o -> reach_pm (next_clock c o) (fst (step m o)).
+
+Lemma reach_pm_reach c m : reach_pm c m -> reach c m.
+Proof. induction 1; [constructor|constructor; assumption]. Qed.
+
+Lemma do_touch_parts m id now id' : get_part (do_touch m id now) id' = get_part m id'.
+Proof.
+  unfold do_touch. destruct (aget id (m_entries m)); [|reflexivity].
+  destruct (_ || _ || _); reflexivity.
+Qed.
+
+Lemma step_parts_other m o id' :
+  (forall id a, o <> OSetLatest id a) -> (forall id n, o <> OSetProcessed id n) -> (forall id a n, o <> OMark id a n) ->
+  get_part (fst (step m o)) id' = get_part m id'.
+Proof.
+  intros H1 H2 H3. destruct o; try (exfalso; eapply H1; reflexivity); try (exfalso; eapply H2; reflexivity);
+    try (exfalso; eapply H3; reflexivity); cbn [step].
+  - destruct (aget id (m_entries m)); destruct s; reflexivity.
+  - reflexivity.
+  - destruct (aget id (m_entries m)) as [e|]; [|reflexivity]. destruct (e_paused e); reflexivity.
+  - destruct (aget id (m_entries m)) as [e|]; [|reflexivity]. destruct (e_paused e); cbn [negb]; [|reflexivity].
+    destruct (is_time _); [reflexivity|]. destruct (_ && _); reflexivity.
+  - apply do_touch_parts.
+  - destruct (aget id (m_entries m)) as [e|]; [|reflexivity]. destruct (is_count _); cbn [negb]; [|reflexivity].
+    destruct (_ <? _); [reflexivity|]. destruct (_ || _); reflexivity.
+  - destruct (heap_head _) as [[? ?]|]; reflexivity.
+  - destruct (heap_head _) as [[? ?]|]; [|reflexivity]. destruct (_ && _ && _); reflexivity.
+  - destruct (aget id (m_entries m)) as [e|]; [|reflexivity]. destruct (Nat.eqb _ _); cbn [negb]; [|reflexivity].
+    destruct passivated; [reflexivity|]. destruct (e_paused e); reflexivity.
+  - destruct (m_chan m) as [|[? ?] ?]; [reflexivity|]. destruct (aget _ _) as [e|]; [|reflexivity].
+    destruct (Nat.eqb _ _); cbn [negb]; [|reflexivity]. destruct (e_paused e); reflexivity.
+  - destruct (aget id (m_entries m)) as [e|]; [|reflexivity]. destruct (Nat.eqb _ _); cbn [negb]; [|reflexivity].
+    destruct passivated; [reflexivity|]. destruct (e_paused _); [reflexivity|]. destruct (e_pending _); reflexivity.
+Qed.
+
+Lemma reach_pm_handled c m : reach_pm c m -> forall id, p_handled (get_part m id) = p_latest (get_part m id).
+Proof.
+  induction 1 as [|c m o Hr IH Hv Hpm]; intros id'; [reflexivity|].
+  destruct o; try (rewrite step_parts_other by (intros; discriminate); apply IH); cbn [step fst].
+  - destruct (Nat.eq_dec id id') as [->|Hne]; [rewrite get_part_set_same; reflexivity|rewrite get_part_set_other by assumption; apply IH].
+  - destruct (Nat.eq_dec id id') as [->|Hne]; [rewrite get_part_set_same; cbn; apply IH|rewrite get_part_set_other by assumption; apply IH].
+  - cbn in Hpm. subst at_. destruct (_ >=? _); cbn [fst]; rewrite ?do_touch_parts;
+      (destruct (Nat.eq_dec id id') as [->|Hne]; [rewrite get_part_set_same; reflexivity|rewrite get_part_set_other by assumption; apply IH]).
+Qed.
+
+(* ... hence an actor is only passivated when the last message it handled is older than
+   timeout - passivationTouchInterval *)
+Lemma trig_decide_bound_handled c m id obj now :
+  reach_pm c m ->
+  snd (step m (OTrigBegin id obj now)) = RDecide (Some (id, obj)) ->
+  exists e t, aget id (m_entries m) = Some e /\ e_strat e = STime t /\ e_paused e = false /\
+              now - p_handled (get_part m id) > t - touch_interval.
+Proof.
+  intros Hr Hd. destruct (trig_decide_bound c m id obj now (reach_pm_reach _ _ Hr) Hd) as [e [t [H1 [H2 [H3 [H4 [H5 H6]]]]]]].
+  exists e, t. repeat split; auto. rewrite (reach_pm_handled _ _ Hr). assumption.
+Qed.
+
+(* the turn of the code as it is stamps every message with the turn's start: three 100 ms
+   handlers in one turn, 300 ms timeout -> the actor is passivated 100 ms after it handled a
+   message (and while it still has messages queued) *)
+Definition burst_ops (per_message : bool) : list op :=
+  ORegister 0 (STime 300000000) true 999999000 ::
+  turn_marks per_message 0 1000000000 [1000000000; 1100000000; 1200000000] ++
+  [OTrigBegin 0 0 1300000000].
+
+Lemma burst_witness :
+  (* one clock reading per turn: decided at 1.3 s although a message was handled at 1.2 s *)
+  snd (last (run m0 (burst_ops false)) (m0, RNone)) = RDecide (Some (0%nat, 0%nat)) /\
+  p_handled (get_part (final m0 (burst_ops false)) 0) = 1200000000 /\
+  1300000000 - 1200000000 < 300000000 - touch_interval /\
+  (* one clock reading per message: not decided *)
+  snd (last (run m0 (burst_ops true)) (m0, RNone)) = RDecide None.
+Proof. vm_compute. repeat split; reflexivity. Qed.
+
+(* the witness is a valid history *)
+Fixpoint valid_run (c : Z) (m : mstate) (ops : list op) : Prop :=
+  match ops with
+  | [] => True
+  | o :: r => valid_op c m o /\ valid_run (next_clock c o) (fst (step m o)) r
+  end.
+
+Lemma valid_run_reach c m ops : reach c m -> valid_run c m ops ->
+  reach (fold_left next_clock ops c) (final m ops).
+Proof.
+  revert c m; induction ops as [|o r IH]; intros c m Hr Hv; [exact Hr|].
+  destruct Hv as [Hv1 Hv2]. cbn [fold_left final]. apply IH; [constructor; assumption|assumption].
+Qed.
+
+Lemma burst_valid b : valid_run 0 m0 (burst_ops b).
+Proof. destruct b; cbn; unfold get_part; cbn; repeat split; try lia; intros; try discriminate. Qed.
+
+(* ------------------------------------------------------------------ paused / strategy / message count *)
+
+Lemma proc_decide c m id obj :
+  reach c m ->
+  snd (step m OProcBegin) = RDecide (Some (id, obj)) ->
+  exists e, aget id (m_entries m) = Some e /\ e_obj e = obj /\ e_paused e = false /\ e_strat e <> SOther /\
+            (e_pending e = true ->
+             exists n, e_strat e = SCount n /\ e_base e + n <= p_processed (get_part m id)).
+Proof.
+  intros Hr Hd. apply reach_inv in Hr. cbn [step] in Hd.
+  destruct (m_chan m) as [|[id' obj'] rest]; [discriminate|].
+  destruct (aget id' (m_entries m)) as [e|] eqn:Eg; [|discriminate].
+  destruct (Nat.eqb (e_obj e) obj') eqn:Eo; cbn [negb] in Hd; [|discriminate].
+  destruct (e_paused e) eqn:Epa; cbn [snd] in Hd; [discriminate|].
+  inversion Hd; subst id' obj'. apply Nat.eqb_eq in Eo.
+  pose proof (inv_entry _ _ Hr _ _ Eg) as [Hso [Hto [Hmx [Hpe Hh]]]].
+  exists e. repeat split; auto. intros Hp. destruct (Hpe Hp) as [Hc Hb].
+  destruct (e_strat e) as [|n|] eqn:Es; simpl in Hc; try discriminate.
+  exists n. split; [reflexivity|]. rewrite (Hmx eq_refl) in Hb. simpl in Hb. assumption.
+Qed.
+
+(* a long-lived (or unknown) strategy never has an entry, so nothing is ever decided for it *)
+Lemma register_other_removes c m id ispid now :
+  reach c m -> aget id (m_entries (fst (step m (ORegister id SOther ispid now)))) = None.
+Proof.
+  intros Hr. apply reach_inv in Hr. cbn [step].
+  destruct (aget id (m_entries m)); cbn [fst del_entry m_entries]; apply aget_adel_same; apply Hr.
+Qed.
+
+Lemma entries_never_other c m id e : reach c m -> aget id (m_entries m) = Some e -> e_strat e <> SOther.
+Proof. intros Hr Hg. apply reach_inv in Hr. apply (inv_entry _ _ Hr _ _ Hg). Qed.
+
+(* a stale message-count trigger survives an in-place re-registration *)
+Definition stale_ops : list op :=
+  [ORegister 0 (SCount 2) true 1; OSetProcessed 0 3; OMsgProcessed 0; ORegister 0 (SCount 2) true 2; OProcBegin].
+
+Lemma stale_trigger_witness :
+  valid_run 0 m0 stale_ops /\
+  snd (last (run m0 stale_ops) (m0, RNone)) = RDecide (Some (0%nat, 0%nat)) /\
+  (let m := final m0 (removelast stale_ops) in
+   exists e, aget 0%nat (m_entries m) = Some e /\ e_strat e = SCount 2 /\ e_pending e = false /\
+             p_processed (get_part m 0) < e_base e + 2).
+Proof.
+  split; [cbn; unfold get_part; cbn; repeat split; try lia; intros; try discriminate; left; lia|].
+  split; [vm_compute; reflexivity|]. vm_compute. eexists. repeat split; reflexivity.
+Qed.
+
+(* ------------------------------------------------------------------ tryPassivation *)
+
+Lemma try_passivation_guards f :
+  fst (try_passivation f) = true ->
+  f_strategy_nil f = false /\ f_long_lived f = false /\ f_system_stopping f = false /\
+  f_skip_next f = false /\ f_stopping f = false /\ f_suspended f = false /\ f_paused f = false /\
+  f_skip_next_in_critical f = false.
+Proof.
+  unfold try_passivation. destruct f as [a b c d e g h i]; cbn.
+  destruct a, b, c, d, e, g, h, i; cbn; intros H; try discriminate; repeat split; reflexivity.
+Qed.
+
+(* the skip-next flag is consumed by exactly one refused attempt *)
+Lemma try_passivation_skip_once f :
+  f_strategy_nil f = false -> f_long_lived f = false -> f_system_stopping f = false -> f_skip_next f = true ->
+  try_passivation f = (false, false).
+Proof. intros H1 H2 H3 H4. unfold try_passivation. rewrite H1, H2, H3, H4. reflexivity. Qed.
+
+(* ------------------------------------------------------------------ non-vacuity *)
+
+Example ex_idle_passivates :
+  let ops := [ORegister 0 (STime 300000000) true 1000000000; OMark 0 1050000000 1050000000;
+              OMark 0 1120000000 1120000000; ONext 1200000000; OTrigBegin 0 0 1340000000; OTrigBegin 0 0 1360000000] in
+  valid_run 0 m0 ops /\
+  map snd (run m0 ops) = [RNone; RNone; RNone; RNext (Some (0%nat, 0%nat, 150000000)); RDecide None; RDecide (Some (0%nat, 0%nat))].
+Proof.
+  split; [cbn; unfold get_part; cbn; repeat split; try lia; intros; discriminate|vm_compute; reflexivity].
+Qed.
